@@ -20,10 +20,15 @@ Theorem C12_flags_force_what_they_say :
 Proof. exact compute_forces_container. Qed.
 Print Assumptions C12_flags_force_what_they_say.
 
-(* POP and OPA: faithful force-point list is non-empty whatever the flags (recorded findings) *)
-Theorem C12_pop_opa_no_force_refuted : forces pop_path false false false <> [] /\ forces opa_path false false false <> [].
-Proof. exact pop_opa_force_refuted. Qed.
-Print Assumptions C12_pop_opa_no_force_refuted.
+(* POP and OPA: no force point either, now that their numpy linear algebra is deferred as one task *)
+Theorem C12_pop_opa_no_force_when_lazy : forces pop_path false false false = [] /\ forces opa_path false false false = [].
+Proof. exact pop_opa_no_force_when_lazy. Qed.
+Print Assumptions C12_pop_opa_no_force_when_lazy.
+
+(* the table before the repairs: a numpy-only routine applied through apply_ufunc(dask="allowed") fires whatever the flags *)
+Theorem C12_allowed_numpy_kernel_refuted : filter (fun s => fires false false false (snd s)) sites_before_repair <> [].
+Proof. exact allowed_numpy_kernel_refuted. Qed.
+Print Assumptions C12_allowed_numpy_kernel_refuted.
 
 (* every reduction over any partition of the index range into chunks equals the unchunked reduction, and partial
    results may be combined in any grouping (exact arithmetic, any field, any chunk sizes) *)
